@@ -293,10 +293,18 @@ func c03tracer(x *mc.X, maxOps int) {
 				if logged {
 					x.Failf("C03/tracer/filter-kill-returned", "%s: op %d (syscall the filter kills) returned %d", ctx, i, ret)
 				}
-				if issuer == "main" || issuer == "thread" {
+				switch {
+				case issuer == "main" || issuer == "thread":
 					dead = true
 					expStatus = runner.StatusDisallowedSyscall
-				} else {
+				case res.Status == runner.StatusDisallowedSyscall:
+					// as the property has it: a syscall the filter kills ends the run, whichever process issued it
+					dead = true
+					expStatus = runner.StatusDisallowedSyscall
+				default:
+					// the filter killed a child process and the run went on: judged once, under its own class; the rest of
+					// the program is then interpreted as it actually continued (only the issuing process is gone)
+					x.Failf("C03/tracer/filter-kill-in-child-process-does-not-end-the-run", "%s: op %d is killed by the filter in a child process; the child died of SIGSYS but the run ended %s instead of Disallowed Syscall", ctx, i, statusName(res.Status))
 					issuerDead = true
 				}
 			}
@@ -391,6 +399,10 @@ func c03policy(x *mc.X) {
 	if two {
 		v2 = x.Choose(3, "verdict(second path)")
 	}
+	// the kernel and the filter look at the low 32 bits of the syscall-number register, the tracer reads all 64: with
+	// garbage in the upper half the call is the same call for the kernel but has no name for the runner, which must
+	// then refuse it (kill) whatever the path policy would have said
+	hibits := x.Bool("garbage-in-upper-half-of-syscall-number")
 	x.Note("seam", "runner/ptrace policy")
 	x.Note("verdicts", fmt.Sprint(vNames[v1], "/", vNames[v2]))
 	if x.Dry() {
@@ -412,6 +424,11 @@ func c03policy(x *mc.X) {
 	case "linkat":
 		os.WriteFile(src, []byte("x"), 0644)
 		line = "X 265 -100 $0 -100 $1 0\n"
+	}
+	if hibits {
+		nr := 0
+		fmt.Sscanf(line, "X %d", &nr)
+		line = fmt.Sprintf("X %#x%s", uint64(nr)|1<<32, line[strings.Index(line[2:], " ")+2:])
 	}
 	script := "S " + src + "\nS " + dst + "\n"
 	switch issuer {
@@ -452,6 +469,9 @@ func c03policy(x *mc.X) {
 	} else if v1 == vBan || v2 == vBan {
 		comb = vBan
 	}
+	if hibits {
+		comb = vKill
+	}
 	effect := false
 	switch op {
 	case "mkdirat":
@@ -469,9 +489,12 @@ func c03policy(x *mc.X) {
 		effect = e2 == nil
 	}
 	cs := fmt.Sprintf("%s by %s with path verdicts %s/%s", op, issuer, vNames[v1], vNames[v2])
+	if hibits {
+		cs += " (syscall number with garbage in the upper half of the register)"
+	}
 	x.Note("result", fmt.Sprintf("%s ret=%d logged=%v effect=%v asked=%v", statusName(res.Status), ret, logged, effect, len(pol.asked)))
 	if comb != vAllow || issuer != "main" {
-		x.Distinct(fmt.Sprint(op, issuer, v1, v2, res.Status, ret, logged, effect))
+		x.Distinct(fmt.Sprint(op, issuer, v1, v2, hibits, res.Status, ret, logged, effect))
 	}
 	x.Outcome(fmt.Sprintf("policy:%s:%s", vNames[comb], statusName(res.Status)))
 	switch comb {
